@@ -1,0 +1,43 @@
+//go:build verif
+
+package dtlcp
+
+// Verification hooks (build tag `verif` only) for the session-resumption checks: build
+// sessions with chosen fields (forged / pre-seeded cache entries), copy a cached session,
+// and read the Finished values of a connection. Nothing here is compiled without the tag.
+
+// VerifMakeSession builds a session with the given fields (the slices are copied).
+func VerifMakeSession(id []byte, vers, suite uint16, master []byte) *SessionState {
+	return &SessionState{
+		sessionId:    append([]byte(nil), id...),
+		vers:         vers,
+		cipherSuite:  suite,
+		masterSecret: append([]byte(nil), master...),
+	}
+}
+
+// VerifCloneSession returns an independent copy of s (own master-secret bytes).
+func VerifCloneSession(s *SessionState) *SessionState {
+	if s == nil {
+		return nil
+	}
+	cp := *s
+	cp.sessionId = append([]byte(nil), s.sessionId...)
+	if s.masterSecret != nil {
+		cp.masterSecret = append([]byte{}, s.masterSecret...)
+	}
+	return &cp
+}
+
+// VerifSessionPeerRaw returns the DER of the first recorded peer certificate (nil if none).
+func VerifSessionPeerRaw(s *SessionState) []byte {
+	if s == nil || len(s.peerCertificates) == 0 {
+		return nil
+	}
+	return s.peerCertificates[0].Raw
+}
+
+// VerifFinished returns the Finished verify_data values recorded by the last handshake.
+func VerifFinished(c *Conn) (client, server []byte) {
+	return append([]byte(nil), c.clientFinished[:]...), append([]byte(nil), c.serverFinished[:]...)
+}
